@@ -1,0 +1,41 @@
+//go:build verif
+
+package consoleui
+
+import (
+	"io"
+	"mltwist/internal/consoleui/internal/linereader"
+	"mltwist/internal/consoleui/internal/view"
+)
+
+// VerifView is the method set of view.View, which lives in a package that
+// verification code cannot import.
+type VerifView interface {
+	MinLines() int
+	MaxLines() int
+	Print(n int) error
+}
+
+// VerifSetInput redirects all line reads of the UI to rd.
+func VerifSetInput(rd io.Reader) { linereader.VerifSetInput(rd) }
+
+// VerifProcessCommand reads one command line and executes it exactly as one
+// iteration of Run does, without the screen rendering around it.
+func (c *UI) VerifProcessCommand() error { return c.processCommand() }
+
+// VerifScreen returns the view Run renders before each command.
+func (c *UI) VerifScreen() VerifView {
+	return view.NewComposite(c.mode().mode.View(), commandPrompt{})
+}
+
+// VerifModeView returns the view of the current mode.
+func (c *UI) VerifModeView() VerifView { return c.mode().mode.View() }
+
+// VerifModeName returns name of the current mode.
+func (c *UI) VerifModeName() string { return c.mode().name }
+
+// VerifDepth returns number of modes on the mode stack.
+func (c *UI) VerifDepth() int { return len(c.modeStack) }
+
+// VerifFormat exposes the help text wrapping function.
+func VerifFormat(s string, indent int, width int) string { return format(s, indent, width) }
